@@ -906,6 +906,14 @@ func (vc *FuncVC) setupParams() {
 		vc.vals[p] = v
 		vc.params[name] = vc.toSVal(v, t)
 	}
+	// ghost variables of the contract: arbitrary values (the obligations are proved for all of them)
+	for _, gp := range vc.fc.Ghosts {
+		ty := (&Env{g: vc.Gen}).parseType(gp.Type)
+		if ty.K != KInt && ty.K != KBool {
+			panic(fmt.Sprintf("spec: ghost %s: only int and bool ghosts", gp.Name))
+		}
+		vc.params[gp.Name] = SVal{T: vc.named("g_"+gp.Name, ty.sort()), Ty: ty}
+	}
 	// objects of the same type are identical or disjoint (no partial overlap): needed where leaves
 	// are addressed by their own address (array elements such as the inline words of a BigInt)
 	ps := vc.fn.Params
